@@ -48,7 +48,10 @@ ASSUMPTIONS = [
     "close_returns_no_pause / shutdown_no_pause (no pause calls: both variants of stop(), wait true/false, joins allowed), "
     "close_returns_wait(_checked) / shutdown_wait(_checked) (wait=True, repaired stop(): no player still in its loop is "
     "paused when close is called — decidable from the script alone: closeUnpaused); afterwards (shutdown): close returned, "
-    "all streams closed, terminate called exactly once, no player alive",
+    "all streams closed, terminate called exactly once, no player alive at the end of the run (at the instant close returns "
+    "a player may still have its last lock release to do: known finding D15, theorem alive_after_close_reachable); "
+    "wait_close_delivers_all (wait=True, no stop() call in the script: when close has returned every stream received its "
+    "whole chunk sequence)",
     "NOT claimed: close(wait=True) with a player paused at that time blocks for ever (known finding D10b; model-level "
     "theorems deadlock_pause_close_wait, deadlock_pause_close_wait_fixed); the tie still carries liveness on the "
     "explored schedules of the real code (outcome done/deadlock compared step by step with the model)",
